@@ -1190,3 +1190,262 @@ Lemma listener_dies_063_witness :
   accept_loop_063 true sc 0 [Conn 1 0 []; Conn 2 1 [1]] = ([Served [] true; Refused], ReturnedOk) /\
   accept_loop true sc 0 [Conn 1 0 []; Conn 2 1 [1]] = ([Served [] true; Served [] true], Running).
 Proof. vm_compute. split; reflexivity. Qed.
+
+(** * The server over arbitrary event lists *)
+Lemma accept_run_dead odc checked sc evs : forall s,
+  status s <> Running -> accept_run odc checked sc s evs = (s, refused_all evs).
+Proof.
+  induction evs as [|e r IH]; intros s Hs; [reflexivity|].
+  cbn [accept_run]. unfold accept_step.
+  destruct (status s) eqn:E; try contradiction;
+    (rewrite (IH s ltac:(rewrite E; discriminate));
+     destruct e; unfold refused_all; cbn [filter is_conn map]; reflexivity).
+Qed.
+
+(** What the reference gives one connection, and the reference state after it. *)
+Definition spec_conn (sc : sconfig) (q : qstate * qstate) (a t : N) (reqs : list N) : (qstate * qstate) * conn_result :=
+  let (q1, d) := qstep (pre_cfg sc) (fst q) a t in
+  let p1 := after_pre (shared sc) q1 q in
+  match d with
+  | Drop => (p1, Served [] true)
+  | _ => let '(p2, l, c) := spec_requests sc p1 a reqs in (p2, Served l c)
+  end.
+
+Lemma spec_events_conn sc q f a t reqs r :
+  spec_events sc q f (Conn a t reqs :: r)
+  = (snd (spec_conn sc q a t reqs) :: fst (spec_events sc (fst (spec_conn sc q a t reqs)) 0 r),
+     snd (spec_events sc (fst (spec_conn sc q a t reqs)) 0 r)).
+Proof.
+  cbn [spec_events]. unfold spec_conn.
+  destruct (qstep (pre_cfg sc) (fst q) a t) as [q1 d].
+  destruct d.
+  - destruct (spec_requests sc _ a reqs) as [[p2 l] c]. cbn [fst snd].
+    destruct (spec_events sc p2 0 r) as [os st]. reflexivity.
+  - destruct (spec_requests sc _ a reqs) as [[p2 l] c]. cbn [fst snd].
+    destruct (spec_events sc p2 0 r) as [os st]. reflexivity.
+  - cbn [fst snd]. destruct (spec_events sc _ 0 r) as [os st]. reflexivity.
+Qed.
+
+Lemma accept_conn_sim_ev checked sc s q n a t reqs :
+  status s = Running -> sim2p n (lims s) q -> n + N.of_nat (S (length reqs)) <= third ->
+  exists s1,
+    accept_step true checked sc s (Conn a t reqs) = (s1, Some (snd (spec_conn sc q a t reqs))) /\
+    status s1 = Running /\ fails s1 = 0 /\
+    sim2p (n + N.of_nat (S (length reqs))) (lims s1) (fst (spec_conn sc q a t reqs)).
+Proof.
+  intros Hal Hsim Hfit. unfold accept_step, spec_conn. rewrite Hal.
+  destruct (qstep_sim checked (pre_cfg sc) n (fst (lims s)) (fst q) a t (proj1 Hsim)) as [Hd Hs]; [lia|].
+  destruct (register checked (pre_cfg sc) (fst (lims s)) a t) as [st1 d].
+  destruct (qstep (pre_cfg sc) (fst q) a t) as [q1 d'].
+  cbn [fst snd] in *. subst d.
+  assert (Hp1 : sim2p (n + 1) (after_pre (shared sc) st1 (lims s)) (after_pre (shared sc) q1 q)).
+  { apply after_pre_sim; [exact Hs|]. eapply sim2p_mono; [exact Hsim|lia]. }
+  assert (Hserve := serve_sim checked sc a reqs (n + 1) _ _ Hp1).
+  destruct d'.
+  - destruct Hserve as (H1 & H2 & H3); [lia|].
+    destruct (serve_requests checked sc _ a reqs) as [[p2 l] c].
+    destruct (spec_requests sc _ a reqs) as [[q2 l'] c']. cbn [fst snd] in *. subst l' c'.
+    eexists. split; [reflexivity|]. cbn [status fails lims].
+    refine (conj eq_refl (conj eq_refl _)). eapply sim2p_mono; [exact H3|lia].
+  - destruct Hserve as (H1 & H2 & H3); [lia|].
+    destruct (serve_requests checked sc _ a reqs) as [[p2 l] c].
+    destruct (spec_requests sc _ a reqs) as [[q2 l'] c']. cbn [fst snd] in *. subst l' c'.
+    eexists. split; [reflexivity|]. cbn [status fails lims].
+    refine (conj eq_refl (conj eq_refl _)). eapply sim2p_mono; [exact H3|lia].
+  - eexists. split; [reflexivity|]. cbn [status fails lims fst snd].
+    refine (conj eq_refl (conj eq_refl _)). eapply sim2p_mono; [exact Hp1|lia].
+Qed.
+
+Lemma accept_events_sim checked sc : forall evs s q n,
+  status s = Running -> sim2p n (lims s) q -> n + N.of_nat (ev_calls_bound evs) <= third ->
+  snd (accept_run true checked sc s evs) = fst (spec_events sc q (fails s) evs) /\
+  status (fst (accept_run true checked sc s evs)) = snd (spec_events sc q (fails s) evs).
+Proof.
+  induction evs as [|e r IH]; intros s q n Hal Hsim Hfit.
+  - cbn [accept_run fst snd spec_events]. split; [reflexivity|exact Hal].
+  - destruct e as [a t reqs| | | |oh a t].
+    + (* accepted connection *)
+      cbn [accept_run ev_calls_bound] in *.
+      destruct (accept_conn_sim_ev checked sc s q n a t reqs Hal Hsim) as (s1 & Hstep & Hal1 & Hf1 & Hs1); [lia|].
+      rewrite Hstep, spec_events_conn.
+      destruct (IH s1 _ _ Hal1 Hs1) as [E1 E2]; [lia|]. rewrite Hf1 in *.
+      destruct (accept_run true checked sc s1 r) as [s2 os]. cbn [fst snd] in *.
+      split; [rewrite E1; reflexivity|exact E2].
+    + (* accept error *)
+      cbn [accept_run ev_calls_bound spec_events] in *. unfold accept_step. rewrite Hal.
+      destruct (fail_threshold <? fails s + 1) eqn:Hth.
+      * rewrite (accept_run_dead true checked sc r {| status := ReturnedErr; fails := fails s + 1; lims := lims s |} ltac:(discriminate)).
+        cbn [fst snd status]. split; reflexivity.
+      * destruct (IH {| status := Running; fails := fails s + 1; lims := lims s |} q n eq_refl Hsim Hfit) as [E1 E2].
+        destruct (accept_run true checked sc _ r) as [s2 os]. cbn [fst snd fails] in *. split; assumption.
+    + (* QUIC time-out *)
+      cbn [accept_run ev_calls_bound spec_events] in *. unfold accept_step. rewrite Hal.
+      destruct (IH s q n Hal Hsim Hfit) as [E1 E2].
+      destruct (accept_run true checked sc s r) as [s2 os]. cbn [fst snd] in *. split; assumption.
+    + (* shutdown *)
+      cbn [accept_run ev_calls_bound spec_events] in *. unfold accept_step. rewrite Hal.
+      rewrite (accept_run_dead true checked sc r {| status := ReturnedOk; fails := fails s; lims := lims s |} ltac:(discriminate)).
+      cbn [fst snd status]. split; reflexivity.
+    + (* a call made by another task *)
+      cbn [accept_run ev_calls_bound spec_events] in *. unfold accept_step. rewrite Hal.
+      destruct oh.
+      * destruct (qstep_sim checked (host_cfg sc) n (snd (lims s)) (snd q) a t (proj2 Hsim)) as [_ Hs]; [lia|].
+        assert (Hp1 : sim2p (n + 1) (after_host (shared sc) (fst (register checked (host_cfg sc) (snd (lims s)) a t)) (lims s))
+                                    (after_host (shared sc) (fst (qstep (host_cfg sc) (snd q) a t)) q)).
+        { apply after_host_sim; [exact Hs|]. eapply sim2p_mono; [exact Hsim|lia]. }
+        destruct (IH {| status := Running; fails := fails s; lims := _ |} _ (n + 1) eq_refl Hp1) as [E1 E2]; [lia|].
+        destruct (accept_run true checked sc _ r) as [s2 os]. cbn [fst snd fails] in *. split; assumption.
+      * destruct (qstep_sim checked (pre_cfg sc) n (fst (lims s)) (fst q) a t (proj1 Hsim)) as [_ Hs]; [lia|].
+        assert (Hp1 : sim2p (n + 1) (after_pre (shared sc) (fst (register checked (pre_cfg sc) (fst (lims s)) a t)) (lims s))
+                                    (after_pre (shared sc) (fst (qstep (pre_cfg sc) (fst q) a t)) q)).
+        { apply after_pre_sim; [exact Hs|]. eapply sim2p_mono; [exact Hsim|lia]. }
+        destruct (IH {| status := Running; fails := fails s; lims := _ |} _ (n + 1) eq_refl Hp1) as [E1 E2]; [lia|].
+        destruct (accept_run true checked sc _ r) as [s2 os]. cbn [fst snd fails] in *. split; assumption.
+Qed.
+
+(** For every event list the server answers exactly as the reference server for event lists. *)
+Lemma server_events_model checked sc t0 evs :
+  fits (ev_calls_bound evs) -> accept_loop checked sc t0 evs = spec_server_events sc t0 evs.
+Proof.
+  intros Hf. apply (proj1 (fits_third _)) in Hf. unfold accept_loop, spec_server_events.
+  destruct (accept_events_sim checked sc evs (astart t0) (qinit t0, qinit t0) 0 eq_refl (sim2p_start 0 t0)) as [E1 E2]; [lia|].
+  destruct (accept_run true checked sc (astart t0) evs) as [s os]. cbn [fst snd astart fails] in *.
+  rewrite E1, E2. destruct (spec_events sc (qinit t0, qinit t0) 0 evs). reflexivity.
+Qed.
+
+(** The reference server for event lists: how it ends is [loop_spec]; while that says [Running] nobody is
+    refused; after it has ended everybody is; and without events other than connections it is [spec_server]. *)
+Lemma spec_events_status sc : forall evs q f, snd (spec_events sc q f evs) = loop_spec f evs.
+Proof.
+  induction evs as [|e r IH]; intros q f; [reflexivity|].
+  destruct e as [a t reqs| | | |oh a t].
+  - rewrite spec_events_conn. cbn [snd loop_spec]. apply IH.
+  - cbn [spec_events loop_spec]. destruct (fail_threshold <? f + 1); [reflexivity|apply IH].
+  - cbn [spec_events loop_spec]. apply IH.
+  - reflexivity.
+  - cbn [spec_events loop_spec]. destruct oh; apply IH.
+Qed.
+
+Lemma spec_events_conns sc : forall cs q f,
+  spec_events sc q f (map conn_of cs) = (spec_server_from sc q cs, Running).
+Proof.
+  induction cs as [|[[a t] reqs] r IH]; intros q f; [reflexivity|].
+  cbn [map conn_of]. rewrite spec_events_conn. rewrite IH. cbn [fst snd spec_server_from]. unfold spec_conn.
+  destruct (qstep (pre_cfg sc) (fst q) a t) as [q1 d].
+  destruct d; try (destruct (spec_requests sc _ a reqs) as [[p2 l] c]); reflexivity.
+Qed.
+
+(** * The bystander at the server: an address whose calls so far all fit under both maxima is served *)
+Definition pinv (b : N) (p : qstate * qstate) (c : N) : Prop :=
+  count b (q_counted (fst p)) <= c /\ count b (q_counted (snd p)) <= c.
+
+Lemma pinv_after_host b sh q1 p c c' :
+  pinv b p c -> count b (q_counted q1) <= c' -> c <= c' -> pinv b (after_host sh q1 p) c'.
+Proof. intros [H1 H2] Hq Hle. unfold after_host, pinv. destruct sh; cbn [fst snd]; lia. Qed.
+Lemma pinv_after_pre b sh q1 p c c' :
+  pinv b p c -> count b (q_counted q1) <= c' -> c <= c' -> pinv b (after_pre sh q1 p) c'.
+Proof. intros [H1 H2] Hq Hle. unfold after_pre, pinv. destruct sh; cbn [fst snd]; lia. Qed.
+
+Lemma spec_requests_counted sc b a : forall ts p c,
+  pinv b p c -> pinv b (fst (fst (spec_requests sc p a ts))) (c + (if a =? b then N.of_nat (length ts) else 0)).
+Proof.
+  induction ts as [|t r IH]; intros p c Hp; cbn [spec_requests].
+  - cbn [fst length]. destruct Hp. split; destruct (a =? b); lia.
+  - pose proof (qstep_counted_le (host_cfg sc) (snd p) a t b) as Hq.
+    destruct (qstep (host_cfg sc) (snd p) a t) as [q1 d]. cbn [fst] in Hq.
+    assert (Hp1 : pinv b (after_host (shared sc) q1 p) (c + (if a =? b then 1 else 0))).
+    { eapply pinv_after_host; [exact Hp| |destruct (a =? b); lia]. destruct Hp. lia. }
+    specialize (IH (after_host (shared sc) q1 p) _ Hp1).
+    destruct d.
+    + destruct (spec_requests sc _ a r) as [[p2 l] cc]. cbn [fst length] in *.
+      destruct IH. split; destruct (a =? b); lia.
+    + destruct (spec_requests sc _ a r) as [[p2 l] cc]. cbn [fst length] in *.
+      destruct IH. split; destruct (a =? b); lia.
+    + cbn [fst length]. destruct Hp1. split; destruct (a =? b); lia.
+Qed.
+
+Lemma spec_conn_counted sc b p c a t reqs :
+  pinv b p c -> pinv b (fst (spec_conn sc p a t reqs)) (c + (if a =? b then 1 + N.of_nat (length reqs) else 0)).
+Proof.
+  intros Hp. unfold spec_conn.
+  pose proof (qstep_counted_le (pre_cfg sc) (fst p) a t b) as Hq.
+  destruct (qstep (pre_cfg sc) (fst p) a t) as [q1 d]. cbn [fst] in Hq.
+  assert (Hp1 : pinv b (after_pre (shared sc) q1 p) (c + (if a =? b then 1 else 0))).
+  { eapply pinv_after_pre; [exact Hp| |destruct (a =? b); lia]. destruct Hp. lia. }
+  pose proof (spec_requests_counted sc b a reqs _ _ Hp1) as Hr.
+  destruct d.
+  - destruct (spec_requests sc _ a reqs) as [[p2 l] cc]. cbn [fst] in *. destruct Hr. split; destruct (a =? b); lia.
+  - destruct (spec_requests sc _ a reqs) as [[p2 l] cc]. cbn [fst] in *. destruct Hr. split; destruct (a =? b); lia.
+  - cbn [fst]. destruct Hp1. split; destruct (a =? b); lia.
+Qed.
+
+Lemma spec_requests_bystander sc b : forall ts p c,
+  pinv b p c -> c + N.of_nat (length ts) <= max_requests (host_cfg sc) ->
+  snd (fst (spec_requests sc p b ts)) = repeat Normal (length ts) /\ snd (spec_requests sc p b ts) = false.
+Proof.
+  induction ts as [|t r IH]; intros p c Hp Hc; cbn [spec_requests length repeat] in *; [split; reflexivity|].
+  pose proof (qstep_counted_le (host_cfg sc) (snd p) b t b) as Hq. rewrite N.eqb_refl in Hq.
+  pose proof (qstep_passed (host_cfg sc) (snd p) b t) as Hpass.
+  destruct (qstep (host_cfg sc) (snd p) b t) as [q1 d]. cbn [fst snd] in *.
+  rewrite Hpass by (destruct Hp; lia).
+  assert (Hp1 : pinv b (after_host (shared sc) q1 p) (c + 1)).
+  { eapply pinv_after_host; [exact Hp| |lia]. destruct Hp. lia. }
+  destruct (IH _ _ Hp1 ltac:(lia)) as [E1 E2].
+  destruct (spec_requests sc _ b r) as [[p2 l] cc]. cbn [fst snd] in *. subst. split; reflexivity.
+Qed.
+
+Lemma spec_conn_bystander sc b p c t reqs :
+  pinv b p c -> c + 1 + N.of_nat (length reqs) <= min_max sc ->
+  snd (spec_conn sc p b t reqs) = Served (repeat Normal (length reqs)) false.
+Proof.
+  intros Hp Hc. unfold min_max in Hc. unfold spec_conn.
+  pose proof (qstep_counted_le (pre_cfg sc) (fst p) b t b) as Hq. rewrite N.eqb_refl in Hq.
+  pose proof (qstep_passed (pre_cfg sc) (fst p) b t) as Hpass.
+  destruct (qstep (pre_cfg sc) (fst p) b t) as [q1 d]. cbn [fst snd] in *.
+  rewrite Hpass by (destruct Hp; lia).
+  assert (Hp1 : pinv b (after_pre (shared sc) q1 p) (c + 1)).
+  { eapply pinv_after_pre; [exact Hp| |lia]. destruct Hp. lia. }
+  destruct (spec_requests_bystander sc b reqs _ _ Hp1 ltac:(lia)) as [E1 E2].
+  destruct (spec_requests sc _ b reqs) as [[p2 l] cc]. cbn [fst snd] in *. subst. reflexivity.
+Qed.
+
+Lemma spec_events_bystander sc b t reqs evs2 : forall evs1 p f c,
+  pinv b p c -> loop_spec f evs1 = Running ->
+  c + ev_calls_of b evs1 + 1 + N.of_nat (length reqs) <= min_max sc ->
+  nth_error (fst (spec_events sc p f (evs1 ++ Conn b t reqs :: evs2))) (length (filter is_conn evs1))
+  = Some (Served (repeat Normal (length reqs)) false).
+Proof.
+  induction evs1 as [|e r IH]; intros p f c Hp Hrun Hc.
+  - cbn [app filter length ev_calls_of] in *. rewrite spec_events_conn. cbn [fst nth_error].
+    rewrite (spec_conn_bystander sc b p c t reqs Hp) by lia. reflexivity.
+  - destruct e as [a t' reqs'| | | |oh a t']; cbn [app filter is_conn length ev_calls_of loop_spec] in *.
+    + rewrite spec_events_conn. cbn [fst nth_error].
+      apply (IH _ 0 _ (spec_conn_counted sc b p c a t' reqs' Hp) Hrun). lia.
+    + cbn [spec_events]. destruct (fail_threshold <? f + 1); [discriminate|]. apply (IH p (f + 1) c Hp Hrun Hc).
+    + cbn [spec_events]. apply (IH p f c Hp Hrun Hc).
+    + discriminate.
+    + cbn [spec_events]. destruct oh.
+      * pose proof (qstep_counted_le (host_cfg sc) (snd p) a t' b) as Hq.
+        apply (IH _ f (c + (if a =? b then 1 else 0))); [|exact Hrun|lia].
+        eapply pinv_after_host; [exact Hp| |destruct (a =? b); lia]. destruct Hp. lia.
+      * pose proof (qstep_counted_le (pre_cfg sc) (fst p) a t' b) as Hq.
+        apply (IH _ f (c + (if a =? b then 1 else 0))); [|exact Hrun|lia].
+        eapply pinv_after_pre; [exact Hp| |destruct (a =? b); lia]. destruct Hp. lia.
+Qed.
+
+(** At the server: whatever happened before (any connections and requests of anybody, accept errors,
+    calls of other tasks) — as long as the listener has not been ended by a shutdown request or
+    101 accept errors in a row — a client whose calls so far, this connection and its requests
+    included, are at most the smaller configured maximum is accepted and every request is answered
+    normally. *)
+Lemma server_bystander_model checked sc t0 evs1 b t reqs evs2 :
+  fits (ev_calls_bound (evs1 ++ Conn b t reqs :: evs2)) ->
+  loop_spec 0 evs1 = Running ->
+  ev_calls_of b evs1 + 1 + N.of_nat (length reqs) <= min_max sc ->
+  nth_error (fst (accept_loop checked sc t0 (evs1 ++ Conn b t reqs :: evs2))) (length (filter is_conn evs1))
+  = Some (Served (repeat Normal (length reqs)) false).
+Proof.
+  intros Hf Hrun Hc. rewrite (server_events_model checked sc t0 _ Hf). unfold spec_server_events.
+  apply (spec_events_bystander sc b t reqs evs2 evs1 _ 0 0); [|exact Hrun|lia].
+  split; cbn [qinit fst snd q_counted count]; lia.
+Qed.
